@@ -16,6 +16,12 @@ seeds = sorted(d for d in os.listdir(os.path.join(VERIF, "seeded")) if os.path.i
 if args:
     seeds = [s for s in seeds if any(s.startswith(a) for a in args)]
 pids = sorted(os.path.basename(p)[:-3].upper() for p in glob.glob(os.path.join(VERIF, "sma/checks/c[0-9]*.py")))
+# the analysis is run from a snapshot, so that it can be edited while a matrix is running
+SNAP = tempfile.mkdtemp(prefix="sma_snap_")
+shutil.copytree(os.path.join(VERIF, "sma"), os.path.join(SNAP, "sma"), ignore=shutil.ignore_patterns("__pycache__"))
+shutil.copy(os.path.join(VERIF, "known_findings.jsonl"), SNAP)
+import atexit
+atexit.register(shutil.rmtree, SNAP, True)
 
 
 def one(seed):
@@ -29,8 +35,8 @@ def one(seed):
             return seed, {"PATCH": (3, r.stdout + r.stderr)}
         env = dict(os.environ, SMA_REPO=tmp, SMA_EVIDENCE_DIR=os.path.join(tmp, "ev"))
         for pid in pids:
-            r = subprocess.run(["/venv/bin/python", os.path.join(VERIF, "sma/run.py"), pid, "--tier", tier],
-                               capture_output=True, text=True, env=env, cwd=VERIF)
+            r = subprocess.run(["/venv/bin/python", os.path.join(SNAP, "sma/run.py"), pid, "--tier", tier],
+                               capture_output=True, text=True, env=env, cwd=SNAP)
             first = ""
             for l in r.stdout.splitlines():
                 if l.startswith(("  REFUTED", "ANALYSIS-ERROR")):
